@@ -18,6 +18,7 @@ import (
 	"fmt"
 	"os"
 	"path/filepath"
+	"reflect"
 	"runtime"
 	"strings"
 	"sync"
@@ -133,6 +134,9 @@ func probes() []probe {
 		}},
 		{"space-padded", func(y func()) probeResult {
 			return txt(redact.Sprintf("%8.3f|%6s|%8q|%5t|%4c|%10x|%12v", 3.14159, "ab", "q", true, 'x', "hex", redact.Safe("s")))
+		}},
+		{"wide-integers", func(y func()) probeResult {
+			return txt(redact.Sprintf("%080d|%.72x|%+75.70d|%-70d|", 12345, 0xabcdef, -42, -2962962963))
 		}},
 		{"badverb", func(y func()) probeResult { return txt(redact.Sprintf("%z %!", 1)) }},
 		{"missing-extra", func(y func()) probeResult { return txt(redact.Sprintf("%d %d", 1) + redact.Sprintf("%d", 1, 2)) }},
@@ -281,6 +285,7 @@ func abnormals() []abnormal {
 			b.Printf("%s", big)
 			_ = b.RedactableString()
 		}},
+		{"wide-integers", func(y func()) { _ = redact.Sprintf("%090d %.80b %+72.71d", 987654321, 5, 77) }},
 		{"zero-pads", func(y func()) { _ = redact.Sprintf("%012.4f %08s %06t %09q", 2.5, "z", false, "q") }},
 		{"flags-everywhere", func(y func()) { _ = redact.Sprintf("%+#-0 33.11v %+#-0 33.11x", 3.5, "s") }},
 	}
@@ -507,6 +512,29 @@ func c12differential(c *Ctx) {
 	registerC04Types()
 	o := c04opts()
 	n := c.pick(60000, 1500000)
+	// Types nobody has printed yet, printed with field names by all workers at once
+	// (per-type caches filled lazily are a classic place for a race).
+	for round := 0; round < int(c.pick(20, 200)); round++ {
+		var fields []reflect.StructField
+		for k := 0; k < 6; k++ {
+			fields = append(fields, reflect.StructField{Name: fmt.Sprintf("F%d_%d_%d", c.Seed%1000, round, k), Type: reflect.TypeOf(0)})
+		}
+		v := reflect.New(reflect.StructOf(fields)).Elem().Interface()
+		want := map[string]string{}
+		var mu sync.Mutex
+		c.ParallelFor(int64(c.Workers*4), func(w *Worker, i int64) {
+			f := []string{"%+v", "%#v", "%v"}[i%3]
+			got := redact.Sprintf(f, v).StripMarkers()
+			ref := fmt.Sprintf(f, v)
+			w.Eval(1)
+			if got != ref {
+				w.Violate("C12 fresh-type", "a struct type printed for the first time by several goroutines at once: "+q(got)+", fmt prints "+q(ref), map[string]string{"format": f})
+			}
+			mu.Lock()
+			want[f] = ref
+			mu.Unlock()
+		})
+	}
 	for _, procs := range []int{16, 4} {
 		prev := runtime.GOMAXPROCS(procs)
 		c.ParallelFor(n/2, func(w *Worker, i int64) {
